@@ -249,13 +249,17 @@ def need_space(l: Tuple[str, str], r: Tuple[str, str]) -> bool:
     return False
 
 
-def to_text(ts: List[Tuple[str, str]], rng: Optional[random.Random]) -> str:
-    """canonical (single blanks where needed) when rng is None; otherwise random blanks, newlines, comments"""
+def to_text(ts: List[Tuple[str, str]], rng: Optional[random.Random], seps: Optional[List[str]] = None) -> str:
+    """canonical (single blanks where needed) when rng is None; otherwise random blanks, newlines, comments.
+    `seps` (one text per gap, "" = canonical) places explicit separators instead"""
     out = []
     for i, t in enumerate(ts):
         if i:
             must = need_space(ts[i - 1], t)
-            if rng is None:
+            if seps is not None:
+                sp = seps[i - 1] if i - 1 < len(seps) else ""
+                out.append(sp if sp else (" " if must else ""))
+            elif rng is None:
                 out.append(" " if must else "")
             else:
                 r = rng.random()
@@ -270,7 +274,7 @@ def to_text(ts: List[Tuple[str, str]], rng: Optional[random.Random]) -> str:
                 out.append(sep)
         out.append(t[1])
     s = "".join(out)
-    if rng is not None:
+    if rng is not None and seps is None:
         if rng.random() < 0.2:
             s = rng.choice([" ", "\n", "// lead\n"]) + s
         if rng.random() < 0.2:
@@ -566,6 +570,118 @@ def ops_of(e) -> List[str]:
     return own + [o for x, _ in children(e) for o in ops_of(x)]
 
 
+# ---- sequences (history): related sources parsed one after the other in one process -------------------------
+# Families of atoms whose texts a careless normalisation of the source (collapsing or stripping blanks, folding
+# letter case, cutting `//…` with a regular expression, unifying quotes, truncating) would identify although
+# they are different tokens.  A parser with any state between calls (a memo of trees, of token lists, of
+# dumps, …) must keep them apart; the property speaks of *the* tree of an expression, whatever was parsed before.
+_LONG = "resource_configuration_attribute_with_a_rather_long_name_"
+_S3, _D3 = "'" * 3, '"' * 3
+
+
+def _lits(kind: str, *texts: str) -> List[Any]:
+    return [["lit", kind, t] for t in texts]
+
+
+FAMILIES: List[Tuple[str, List[Any]]] = [
+    ("blanks-in-string", _lits("string", '"a  b"', '"a b"', '"a\tb"', '"a b "', '" a b"', '"ab"', '"a   b"')),
+    ("blanks-in-string-sq", _lits("string", "'p\tq'", "'p q'", "'p  q'", "' p q '", "'pq'")),
+    ("lines-in-mlstring", _lits("mlstring", _S3 + "x\ny" + _S3, _S3 + "x y" + _S3, _S3 + "x\n\ny" + _S3, _S3 + "x  y" + _S3,
+                                _D3 + "x\r\ny" + _D3, _D3 + "x\ny" + _D3, _D3 + "x y" + _D3)),
+    ("blanks-in-bytes", _lits("bytes", "b'p  q'", "b'p q'", "b'p\tq'", 'b"p q"', "b" + _S3 + "p\nq" + _S3, "b" + _S3 + "p q" + _S3)),
+    ("comment-in-string", _lits("string", '"u // v"', '"u // w"', '"u //"', '"u "', '"u"', '"u /* v */"')),
+    ("letter-case", _lits("string", '"Ab"', '"ab"', '"AB"') + [["ident", "Ab"], ["ident", "ab"], ["ident", "AB"]]),
+    ("letter-case-prefix", _lits("string", 'r"x"', 'R"x"', '"x"') + _lits("bytes", 'b"x"', 'B"x"') + _lits("int", "0xff", "0xFF")
+     + _lits("uint", "1u", "1U") + _lits("float", "1e3", "1E3")),
+    ("keyword-case", [["lit", "bool", "true"], ["ident", "True"], ["ident", "TRUE"], ["lit", "null", "null"], ["ident", "Null"],
+                      ["lit", "bool", "false"], ["ident", "False"]]),
+    ("quotes", _lits("string", '"q"', "'q'") + _lits("mlstring", _D3 + "q" + _D3, _S3 + "q" + _S3) + [["ident", "q"]]),
+    ("long-common-prefix", [["ident", _LONG + "one"], ["ident", _LONG + "two"], ["lit", "string", '"' + _LONG + 'one"'],
+                            ["lit", "string", '"' + _LONG + 'two"'], ["ident", _LONG + "one_"]]),
+    ("same-length", _lits("int", "41", "42", "14") + [["ident", "x1"], ["ident", "x2"], ["lit", "string", '"41"']]),
+]
+HOLE = ["ident", "?hole"]
+SEQ_CONTEXTS = [
+    ["rel", "eq", ["ident", "name"], HOLE],
+    ["dotarg", HOLE, "size", []],
+    ["or", ["and", ["rel", "eq", ["ident", _LONG + "zero"], ["lit", "string", '"' + _LONG + '"']],
+            ["identarg", "f", [HOLE, ["ident", "x"]]]], ["ident", "y"]],
+]
+
+
+def fill(ctx, atom_):
+    if ctx == HOLE:
+        return list(atom_)
+    return rebuild(ctx, lambda x, m: fill(x, atom_))
+
+
+def leaves(a) -> int:
+    if a[0] in ("lit", "ident"):
+        return 1
+    return sum(leaves(x) for x, _ in children(a))
+
+
+def with_hole(a, k: int):
+    """replace the k-th identifier/literal leaf (preorder) by the hole"""
+    ctr = [0]
+
+    def go(x):
+        if x[0] in ("lit", "ident"):
+            ctr[0] += 1
+            return list(HOLE) if ctr[0] - 1 == k else list(x)
+        return rebuild(x, lambda y, m: go(y))
+    return go(a)
+
+
+def seq_cases(rng: random.Random, n_random: int) -> List[Dict[str, Any]]:
+    out: List[Dict[str, Any]] = []
+
+    def step(a, ws=None, **kw):
+        st = {"e": parenthesize(a), "ws": ws}
+        st.update(kw)
+        return st
+    # systematic: every family in fixed contexts, all members in order, then the first two again (another parser
+    # object, other blanks)
+    for fam, atoms in FAMILIES:
+        for ci, ctx in enumerate(SEQ_CONTEXTS):
+            steps = [step(fill(ctx, x)) for x in atoms]
+            steps += [step(fill(ctx, atoms[1]), fresh=True), step(fill(ctx, atoms[0]), ws=17 + ci)]
+            out.append({"kind": "seq", "family": fam, "steps": steps})
+    # where a comment ends decides what the expression is: `x // note⏎ op y` is `x op y`, `x // note op y` is `x`
+    for op in BINOPS:
+        for first in (0, 1):
+            x, y = ["ident", "x"], ["dotarg", ["ident", "y"], "g", [["lit", "string", '"s  t"']]]
+            both = mk_bin(op, x, y)
+            optext = toks(both)[1][1]
+            a_ = {"e": both, "ws": None, "seps": [" // note\n "]}
+            b_ = {"e": x, "ws": None, "trail": " // note " + optext + " " + to_text(toks(y), None)}
+            c_ = {"e": both, "ws": None, "seps": [" // another note\n"]}
+            d_ = {"e": both, "ws": None, "seps": ["", "\n// note\n"]}
+            steps = [a_, b_, c_, d_] if first == 0 else [b_, a_, d_, dict(b_)]
+            out.append({"kind": "seq", "family": "comment-end", "steps": steps})
+    # random: a random expression with one leaf running through (part of) a family
+    for _ in range(n_random):
+        for _try in range(20):
+            a = rand_expr(rng, rng.randint(1, 3))
+            if not has_empty_list(a) and leaves(a) >= 1 and size(a) <= 25:
+                break
+        else:
+            continue
+        ctx = with_hole(a, rng.randrange(leaves(a)))
+        fam, atoms = rng.choice(FAMILIES)
+        members = rng.sample(atoms, rng.randint(2, min(4, len(atoms))))
+        members.append(members[0])
+        steps = []
+        for x in members:
+            st = {"e": parenthesize(fill(ctx, x), rng, rng.choice([0.0, 0.0, 0.2])),
+                  "ws": None if rng.random() < 0.6 else rng.randrange(1 << 30)}
+            if rng.random() < 0.15:
+                st["fresh"] = True
+            steps.append(st)
+        out.append({"kind": "seq", "family": fam, "steps": steps})
+    return out
+
+
 # ------------------------------------------------------------------------------------------------
 
 class C06(Prop):
@@ -613,13 +729,15 @@ class C06(Prop):
         return self._parser.parse(text)
 
     def _observe(self, c) -> Dict[str, Any]:
-        """everything observed on the real implementation for this case"""
+        """everything observed on the real implementation for this case (or this step of a sequence)"""
         from celpy import celparser
         e = c["e"]
         ts = toks(e)
-        rng = random.Random(c.get("ws", 0))
-        text = c.get("lead", "") + to_text(ts, rng if c.get("ws") is not None else None) + c.get("trail", "")
+        text = case_text(c)
         ob: Dict[str, Any] = {"text": text}
+        if c.get("fresh"):
+            # another CELParser object without the documented reset (the Lark instances are shared per class)
+            self._parser = celparser.CELParser() if self._parser is not None else None
         try:
             t = self._parse(text)
         except celparser.CELParseError:
@@ -659,6 +777,22 @@ class C06(Prop):
                 return self._impl_word(c)
             except Exception as ex:
                 return f"EXC {type(ex).__name__}"
+        if c["kind"] == "seq":
+            # the steps are parsed one after the other in this process, by the same parser state
+            obs, outs = [], []
+            for st in c["steps"]:
+                try:
+                    ob = self._observe(st)
+                    outs.append(self._show_ob(ob))
+                except RecursionError:
+                    ob = None
+                    outs.append("EXC RecursionError")
+                except Exception as ex:
+                    ob = None
+                    outs.append(f"EXC {type(ex).__name__}")
+                obs.append(ob)
+            self._extra[_key(c)] = {"steps": obs}
+            return SEQ_SEP.join(outs)
         try:
             ob = self._observe(c)
         except RecursionError:
@@ -666,6 +800,10 @@ class C06(Prop):
         except Exception as ex:
             return f"EXC {type(ex).__name__}"
         self._extra[_key(c)] = ob
+        return self._show_ob(ob)
+
+    @staticmethod
+    def _show_ob(ob) -> str:
         if ob["tree"] is None:
             return "parse-error"
         d = ("x" + hx(ob["dump"])) if "dump" in ob else "ERR:" + ob["dump_exc"]
@@ -688,11 +826,19 @@ class C06(Prop):
     def model_line(self, c):
         if c["kind"] == "word":
             return f"W {c['pos']} x{hx(c['word'])}"
+        if c["kind"] == "seq":
+            # the model is a function of the token string alone: a sequence is answered step by step
+            return "S " + " ; ".join(" ".join(enc(st["e"])) for st in c["steps"])
         return "E " + " ".join(enc(c["e"]))
 
     def model_expect(self, c, m):
         if c["kind"] == "word":
             return m
+        if c["kind"] == "seq":
+            parts = m.split(SEQ_SEP)
+            if len(parts) != len(c["steps"]):
+                return "MODEL " + m[:200]
+            return SEQ_SEP.join(self.model_expect(dict(st, kind="step"), x) for st, x in zip(c["steps"], parts))
         f = dict(x.split("=", 1) for x in m.split(" | ")) if " | " in m else {}
         if not f:
             return "MODEL " + m
@@ -719,11 +865,28 @@ class C06(Prop):
                 if out != "type=" + want:
                     return f"`{w}` in expression position is lexed as {out}, not as the literal {want}"
             return None       # name positions (`a.null`, `x{in: 1}`) are outside the statement
+        if c["kind"] == "seq":
+            ob = self._extra.get(_key(c))
+            if ob is None:
+                self.impl(c)
+                ob = self._extra[_key(c)]
+            parts = out.split(SEQ_SEP)
+            for i, (st, sob) in enumerate(zip(c["steps"], ob["steps"])):
+                if sob is None:
+                    return f"step {i + 1}: {parts[i]} escaped from the parser / tree_dump"
+                msg = self._oracle_expr(st, sob)
+                if msg:
+                    before = "; ".join(repr(x["text"]) for x in ob["steps"][:i] if x) or "nothing"
+                    return f"step {i + 1} of a sequence parsed in one process (before it: {before[:300]}): {msg}"
+            return None
         if out.startswith("EXC "):
             return f"{out} escaped from the parser / tree_dump"
         ob = self._extra.get(_key(c))
         if ob is None:
             ob = self._observe(c)
+        return self._oracle_expr(c, ob)
+
+    def _oracle_expr(self, c, ob):
         e = c["e"]
         wf = is_wf(e)
         text = ob["text"]
@@ -731,6 +894,12 @@ class C06(Prop):
             if wf:
                 return f"well-formed expression does not parse: {text!r}"
             return None
+        # the leaves of the tree are the named tokens of the source, in order (whatever the grouping)
+        want_leaves = [list(t) for t in toks(e) if t[0] not in ANON_NAMES]
+        got_leaves = leaves_obj(ob["tree"])
+        if got_leaves != want_leaves:
+            return (f"the tree of {text!r} does not carry the tokens of the source: got "
+                    f"{[x[1] for x in got_leaves][:12]}, want {[x[1] for x in want_leaves][:12]}")
         if ob["canon_tree"] != ob["tree"]:
             return f"whitespace/comments changed the tree: {text!r} vs {to_text(toks(e), None)!r}"
         if wf:
@@ -756,6 +925,8 @@ class C06(Prop):
     def nontrivial(self, c, out):
         if c["kind"] == "word":
             return True
+        if c["kind"] == "seq":
+            return len({case_text(st) for st in c["steps"]}) >= 2
         e = c["e"]
         return len(ops_of(e)) >= 2 or any(t[0] != "IDENT" and t[0] in LITKIND.values() for t in toks(e))
 
@@ -763,8 +934,8 @@ class C06(Prop):
         def empty_list(c):
             # only the dump part may fail on such a case: a wrong grouping of an expression that happens to
             # contain `[]` is still reported
-            if c.get("kind") == "word" or not has_empty_list(c["e"]):
-                return False
+            if c.get("kind") in ("word", "seq") or not has_empty_list(c["e"]):
+                return False      # (sequences are generated without empty list literals)
             msg = self.oracle(c, self.impl(c))
             return msg is not None and msg.startswith("dump ")
         return {"empty_list_literal": empty_list}
@@ -832,7 +1003,10 @@ class C06(Prop):
                 if f != e:
                     cases.append({"kind": "regroup", "e": f, "ws": rng.randrange(1 << 30)})
         # small inputs first, so that the first failing input reported is a small one
-        cases.sort(key=lambda c: 0 if c["kind"] == "word" else len(toks(c["e"])))
+        # (5) sequences of related sources parsed one after the other in one process
+        cases += seq_cases(rng, 120 if quick else 2500)
+        cases.sort(key=lambda c: 0 if c["kind"] == "word" else
+                   (sum(len(toks(st["e"])) for st in c["steps"]) if c["kind"] == "seq" else len(toks(c["e"]))))
         return cases
 
     def search_cases(self, rng):
@@ -870,6 +1044,28 @@ def _sample_shapes3(rng: random.Random, n: int) -> Iterable[Any]:
             mk, subs = t
             return mk([realise(s, ctr) for s in subs])
         yield realise(build(3), [0])
+
+
+SEQ_SEP = " ;; "
+ANON_NAMES = set(ANON.values())
+
+
+def leaves_obj(o) -> List[List[str]]:
+    if isinstance(o[1], str):
+        return [o]
+    return [x for c in o[1] for x in leaves_obj(c)]
+
+
+def case_text(c) -> str:
+    """the source text of an expression case / of one step of a sequence"""
+    ts = toks(c["e"])
+    if c.get("seps") is not None:
+        body = to_text(ts, None, c["seps"])
+    elif c.get("ws") is not None:
+        body = to_text(ts, random.Random(c["ws"]))
+    else:
+        body = to_text(ts, None)
+    return c.get("lead", "") + body + c.get("trail", "")
 
 
 def _key(c) -> str:
